@@ -29,7 +29,7 @@ PROPERTY = "C15"
 SEED = 20260926
 PDIM = 2          # free dimension of matrix operands of @
 ITEM_TIMEOUT = {"quick": 100, "thorough": 600}
-REPLAYS_PER_GROUP = 2
+REPLAYS_PER_GROUP = 4
 MAX_REPLAYS = 1500
 
 # ------------------------------------------------------------------------------------------------
@@ -60,32 +60,45 @@ CTORS = ["vec", "vecs", "one", "tup", "lst", "blk", "blk3", "sca", "sym", "add",
 
 BOUNDS = {
     "quick": dict(shapes="(1..3)x(1..3)", dyads=[0, 1, 2], types="u, v, operand each real|complex",
+                  depth0="every constructor variant x 5 shapes x dyads 0,1,2 x (u,v) types",
                   depth1="every operation x every (u,v[,operand]) type combination x dyads 0,1,2; shape and "
-                         "constructor drawn per item from a seeded generator (every shape/constructor occurs)",
+                         "constructor drawn per program from a seeded generator (every shape/constructor occurs); "
+                         "corner operations (+=/-= with 0 or dense, [:, :] = 0, two index lists, @ empty carrier, "
+                         "contract_multi with a real and a complex matrix) on 4 configurations each",
                   depth2="seeded half of all ordered pairs (carrier-valued or in-place op, any op), one drawn "
                          "configuration per pair",
-                  constructors=CTORS, zero_vector_items="dedicated items without the non-zero assumption",
-                  operand_free_dim=PDIM, batch=2, seed=SEED),
+                  constructors=CTORS, zero_vector_items="dedicated programs without the non-zero assumption "
+                  "(2x2 and 1x3, 1-2 dyads, types rr/cc/rc)", operand_free_dim=PDIM, batch=2, seed=SEED,
+                  work_items="programs are run in batches of 8 per forked worker"),
     "thorough": dict(shapes="(1..3)x(1..3)", dyads=[0, 1, 2], types="u, v, operand each real|complex",
-                     depth1="every operation x all 9 shapes x dyads 0,1,2 x every type combination",
+                     depth0="every constructor variant x 9 shapes x dyads 0,1,2 x (u,v) types",
+                     depth1="every operation x all applicable shapes x dyads 0,1,2 x every type combination",
                      depth2="all ordered pairs (carrier-valued or in-place op, any op) x 3 drawn configurations",
-                     depth3="deterministic seeded subset of 9000 of the ~126k triples (the full product of triples x "
-                            "configurations is too large), one drawn configuration each",
-                     constructors=CTORS, zero_vector_items="dedicated items without the non-zero assumption",
-                     operand_free_dim=PDIM, batch=2, seed=SEED),
+                     depth3="deterministic seeded subset of 9000 of the ~126k operation triples (the full product of "
+                            "triples x configurations is too large), one drawn configuration each",
+                     constructors=CTORS, zero_vector_items="dedicated programs without the non-zero assumption "
+                     "(4 shapes, 1-2 dyads, types rr/cc/rc)", operand_free_dim=PDIM, batch=2, seed=SEED,
+                     work_items="programs are run in batches of 16 per forked worker"),
 }
 OUTSIDE = ["operation sequences deeper than the bound; shapes beyond 3x3; more than 2 dyads (real/imag create up to 4)",
            "min()/max() (documented approximations)", "adding a non-zero scalar (documented as unsupported)",
-           "broadcasting index arrays of different shapes, integer subscripts that are not a 2-tuple",
+           "broadcasting index arrays of different shapes, subscripts that are not a 2-tuple",
            "complex `fac` of add_dyad (documented as float)", "complex/real type of size-0 results and of scalar results",
            "IEEE rounding (exact real arithmetic model), warnings",
-           "main items assume every entry of the input vectors and scalar operands non-zero (real and imaginary part "
-           "separately), so vectors are dropped as zero only where an operation produces a zero vector; inputs that "
-           "are zero vectors are covered by the dedicated `zero` items only"]
+           "non-generic inputs in the main programs: every entry of the input vectors and scalar operands is assumed "
+           "non-zero (real and imaginary part separately) and no vector handed to add_dyad by an operation is a zero "
+           "vector; zero vectors (inputs, products with a zero scalar, v@M = 0) are covered by the dedicated `zero` "
+           "programs only, and there complex matrix products with 2 dyads are left out (z3 does not decide them in time)",
+           "strict reading of the type clause after zero vectors were dropped (carrier reports real where the dense "
+           "result is complex-typed zeros): evaluated in the dedicated strict programs only; elsewhere a real carrier "
+           "whose stored vectors are all real is accepted when its value equals the (then real-valued) reference"]
 ASSUMPTIONS = ["float64/complex128 arithmetic modelled as exact real arithmetic on pairs of reals",
                "logical dtype of object arrays = complex iff some entry is a complex symbol (symx logical-dtype mode): "
                "dtype tracking through np.result_type, in-place casting errors and item-assignment casts follow NumPy",
-               "scipy.sparse operands are represented by symx.spshim.SymSparse (all entries stored) in the symbolic run"]
+               "scipy.sparse operands are represented by symx.spshim.SymSparse (all entries stored) in the symbolic run",
+               "generic position in the main programs (see outside_claim): stated as assumptions on the entries of the "
+               "vectors the carrier stores right before each operation",
+               "path feasibility is first tried on 3 pseudo-random rational points (exact evaluation), then by z3"]
 
 
 # ------------------------------------------------------------------------------------------------
@@ -259,6 +272,8 @@ class St:
         self.step = "ctor"
         self.dc = None
         self.ref = None
+        self.strict_type = bool(cfg.get("strict_type", False))
+        self.op_cplx = False    # an operand created in the current step is complex
 
     # ---------------------------------------------------------------- values
     def real(self, name, nonzero=False):
@@ -269,6 +284,7 @@ class St:
     def scalar(self, name, typ, nonzero=None):
         nz = self.generic if nonzero is None else nonzero
         if typ == "c":
+            self.op_cplx = True
             re_, im_ = self.real(name + "_re", nz), self.real(name + "_im", nz)
             return C(re_, im_) if self.sym else complex(re_, im_)
         return self.real(name, nz)
@@ -377,12 +393,16 @@ class St:
         if dcx == rc:
             P.holds(label + ".type", True, kind="type")
         else:
-            stored_c = any(cplx(x) for x in list(dc.u) + list(dc.v))
-            if (not dcx) and rc and not stored_c:
-                # every stored vector is real: the complex vectors were dropped as zero vectors
-                P.holds(label + ".type-after-zero-drop", False, kind="type-zero-drop")
+            if self.zero_drop_state(dc, ref):
+                # every stored vector is real: the complex contributions were dropped as zero vectors (or the
+                # carrier is empty).  The carrier's real type then agrees with its (verified) real value; the
+                # strict reading "type of the dense result" is evaluated in the dedicated strict items only.
+                P.holds(label + ".type-after-zero-drop", not self.strict_type, kind="type-zero-drop")
             else:
                 P.holds(label + ".type", False, kind="type")
+
+    def zero_drop_state(self, dc, ref):
+        return (not bool(dc.iscomplex())) and cplx(ref) and not any(cplx(x) for x in list(dc.u) + list(dc.v))
 
     def check_value(self, label, val, refval):
         self.obs[label] = val
@@ -400,7 +420,10 @@ class St:
             return
         P.arrays_eq(label + ".value", val, refval, kind="value")
         if np.shape(val) == np.shape(refval) and np.size(refval) > 0:
-            P.holds(label + ".type", cplx(val) == cplx(refval), kind="type")
+            if (not cplx(val)) and cplx(refval) and not self.op_cplx and self.zero_drop_state(self.dc, self.ref):
+                P.holds(label + ".type-after-zero-drop", not self.strict_type, kind="type-zero-drop")
+            else:
+                P.holds(label + ".type", cplx(val) == cplx(refval), kind="type")
 
     def snapshot(self, dc):
         return (list(dc.u), list(dc.v), [np.array(x, copy=True) for x in dc.u], [np.array(x, copy=True) for x in dc.v],
@@ -516,6 +539,7 @@ class St:
         n, m = np.shape(ref)
         to = self.cfg["to"]
         pre = "o%d" % k
+        self.op_cplx = False
         snap = self.snapshot(dc)
         kind, res, rref, others = self._apply(op, pre, dc, ref, n, m, to)
         if kind == "dyad":
@@ -605,7 +629,11 @@ class St:
         if op in ("mm_B", "mm_Be"):
             B, rB = self.operand_dyad(pre, (m, PDIM), nd=0 if op == "mm_Be" else 1)
             if op == "mm_B":
-                self.gen(*[np.asarray(w) @ rB for w in W])
+                for w in W:     # the vector B.__rdot__(w) hands to add_dyad, built term by term in the same order
+                    acc = self.zeros(PDIM)
+                    for bu_, bv_ in zip(B.u, B.v):
+                        acc = acc + bv_ * w.dot(bu_)
+                    self.gen(acc)
             return DY, dc @ B, ref @ rB, [B]
         if op in GI_DYAD:
             idx = gi_index(op, n, m)
@@ -745,6 +773,8 @@ def run_program(S):
 
 
 def scenario(V, P, cfg):
+    if V.symbolic:
+        V.c.witness_sampling = 3
     return run_program(St(V, P, cfg))
 
 
@@ -805,6 +835,21 @@ def _uses_operand(prog):
 
 
 def items(tier):
+    """Work items = batches of programs (one forked worker per batch; forking per program costs more than the run)."""
+    progs = programs(tier)
+    heavy = [q for q in progs if q["kind"] == "zero"]
+    light = [q for q in progs if q["kind"] != "zero"]
+    _rng("shuffle").shuffle(light)
+    size = 8 if tier == "quick" else 16
+    out = []
+    for grp, sz in ((heavy, 2), (light, size)):
+        for a in range(0, len(grp), sz):
+            sub = grp[a:a + sz]
+            out.append(dict(kind="batch", id="b%04d[%s ...]" % (len(out), sub[0]["id"]), progs=sub))
+    return out
+
+
+def programs(tier):
     out, seen = [], set()
 
     def add(it):
@@ -822,7 +867,11 @@ def items(tier):
                     if ctor in _ctors_for(n, m, nd, tu, tv):
                         add(_item([], n, m, nd, tu, tv, "r", ctor))
     # ---- depth 1
-    for op in ALL_OPS + CORNER_OPS:
+    for op in CORNER_OPS:
+        for ty in [("r", "r", "r"), ("c", "c", "c")]:
+            for nd in (0, 1):
+                add(_draw([op], _rng("corner|%s|%s|%d" % (op, ty, nd)), nd=nd, types=ty))
+    for op in ALL_OPS:
         for ty in (types8 if _uses_operand([op]) else types4):
             for nd in (0, 1, 2):
                 if tier == "quick":
@@ -861,8 +910,18 @@ def items(tier):
             for nd in (1, 2):
                 for ty in [("r", "r", "r"), ("c", "c", "c"), ("r", "c", "r")]:
                     if (n, m) in _shapes_for(prog):
+                        if prog == ["mm_M"] and (nd == 2 or ty[0] == "c"):
+                            continue        # zero-vector paths of complex products: z3 does not decide them in time
                         it = _item(prog, n, m, nd, ty[0], ty[1], ty[2], "vecs", kind="zero", generic=False)
+                        # strict reading of the type clause (a dropped complex vector leaves a real carrier)
+                        it["strict_type"] = (prog in ([], ["mul_s"]) and nd == 1 and (n, m) == (2, 2) and ty[1] == "c")
                         add(it)
+    # ---- dedicated: strict type clause for the empty carrier meeting a complex operand
+    for op in ("mul_s", "mm_M", "diag_0"):
+        it = _item(["mul_s", op] if op == "diag_0" else [op], 2, 2, 0, "r", "r", "c", "shape0", kind="prog")
+        it["strict_type"] = True
+        it["id"] = "strict-" + it["id"]
+        add(it)
     # ---- dedicated: the shapeless carrier DyadCarrier() used as the neutral start of sums
     for prog in [["todense"], ["copy"], ["add_un"], ["iadd_un"], ["radd_un"], ["neg"], ["T"]]:
         for ty in [("r", "r", "r"), ("c", "c", "c")]:
@@ -875,6 +934,8 @@ def items(tier):
 def sc_unshaped(V, P, cfg):
     """DyadCarrier() (no shape yet) as neutral element: sums with a shaped carrier, copy, todense."""
     from pymoto import DyadCarrier
+    if V.symbolic:
+        V.c.witness_sampling = 3
     S = St(V, P, cfg)
     S.construct()
     op = cfg["prog"][0]
@@ -913,15 +974,67 @@ def _scen(cfg):
     return sc_unshaped if cfg["kind"] == "unshaped" else scenario
 
 
-def run_item(cfg, tier):
-    enable_logical_dtype(True)       # forked worker: does not leak into other harnesses
+def run_program_item(cfg, tier):
     mp = 300 if cfg["kind"] == "zero" else 96
-    return symbolic_run(_scen(cfg), cfg, tier, max_paths=mp)
+    return symbolic_run(_scen(cfg), cfg, tier, max_paths=mp, obl_timeout_ms=(4000 if cfg["kind"] == "zero" else None))
+
+
+def run_item(cfg, tier):
+    """Runs every program of the batch and merges the records; labels get the prefix '#<index in batch> '."""
+    enable_logical_dtype(True)       # forked worker: does not leak into other harnesses
+    if cfg["kind"] != "batch":
+        return run_program_item(cfg, tier)
+    import time
+    t0 = time.time()
+    out = dict(item=cfg["id"], kind="batch", cfg=cfg, obligations=[], paths=0, aborted=0, exceptions=[], errors=[],
+               notes=[], samples=[], validated=0, vacuity=dict(paths_sat=0, paths_unknown=0, paths_unsat=0),
+               stats={}, solver_time=0.0, stubs=[], assumptions=[], budget_hit=False)
+    for j, sub in enumerate(cfg["progs"]):
+        r = run_program_item(sub, tier)
+        for o in r["obligations"]:
+            o["label"] = "#%d %s" % (j, o["label"])
+            o["kind"] = "%s#%d" % (o.get("kind"), j)
+            out["obligations"].append(o)
+        for e in r["exceptions"]:
+            e["type"] = "%s#%d" % (e["type"], j)
+            out["exceptions"].append(e)
+        for e in r["errors"]:
+            out["errors"].append("[%s] %s" % (sub["id"], e))
+        for n in r["notes"]:
+            out["notes"].append("[%s] %s" % (sub["id"], n))
+        if r["paths"] > 0 and r["vacuity"].get("paths_sat", 0) == 0 and not r["exceptions"]:
+            out["errors"].append("[%s] VACUOUS (no path with satisfiable constraints)" % sub["id"])
+        for k, v in r["vacuity"].items():
+            out["vacuity"][k] = out["vacuity"].get(k, 0) + v
+        for k, v in r.get("stats", {}).items():
+            out["stats"][k] = out["stats"].get(k, 0) + v
+        out["paths"] += r["paths"]
+        out["aborted"] += r["aborted"]
+        out["validated"] += r["validated"]
+        out["solver_time"] += r.get("solver_time", 0.0)
+        out["budget_hit"] = out["budget_hit"] or r.get("budget_hit", False)
+        if len(out["samples"]) < 2:
+            out["samples"].extend(r["samples"][:1])
+        for a in r.get("assumptions", []):
+            if a not in out["assumptions"]:
+                out["assumptions"].append(a)
+        out["stubs"] = sorted(set(out["stubs"]) | set(r.get("stubs", [])))
+    out["wall"] = time.time() - t0
+    return out
 
 
 # ------------------------------------------------------------------------------------------------
 def replay(cfg, label, env, case):
     """Re-run the program with floats on the real library and evaluate every clause numerically."""
+    if cfg.get("kind") == "batch":
+        mm = re.match(r"#(\d+) (.*)$", label) or re.match(r"(exception:.*)#(\d+)$", label)
+        if not mm:
+            return dict(reproduced=None, detail="label without program index: %s" % label)
+        if label.startswith("exception:"):
+            label, j = mm.group(1), int(mm.group(2))
+        else:
+            j, label = int(mm.group(1)), mm.group(2)
+        cfg = cfg["progs"][j]
     V = Vals(env=env)
     P = ConcreteProver()
     S = St(V, P, cfg)
@@ -937,7 +1050,7 @@ def replay(cfg, label, env, case):
     except Exception as e:       # noqa: BLE001
         exc = e
     inputs = {k: (v if not isinstance(v, complex) else [v.real, v.imag]) for k, v in S.inputs.items()}
-    det = dict(program=cfg["prog"], ctor=cfg["ctor"], shape=[cfg["n"], cfg["m"]], dyads=cfg["nd"],
+    det = dict(id=cfg["id"], program=cfg["prog"], ctor=cfg["ctor"], shape=[cfg["n"], cfg["m"]], dyads=cfg["nd"],
                types=dict(u=cfg["tu"], v=cfg["tv"], operand=cfg["to"]), inputs=inputs,
                failed=P.failed[:4], clauses_evaluated=P.count)
     if exc is not None:
